@@ -383,7 +383,26 @@ func (f *FuncCtx) binary(st *State, x *ast.BinaryExpr) Term {
 }
 
 func (f *FuncCtx) binop(st *State, op token.Token, a, b Term, opndT, resT types.Type, pos string) Term {
-	mk := func(fn string, rs Sort) Term { return Term{S: "(" + fn + " " + a.S + " " + b.S + ")", Sort: rs, GoT: resT} }
+	mk := func(fn string, rs Sort) Term {
+		return Term{S: "(" + fn + " " + a.S + " " + b.S + ")", Sort: rs, GoT: resT}
+	}
+	if (op == token.EQL || op == token.NEQ) && a.Sort != b.Sort {
+		// comparison of a slice with nil: an uninterpreted predicate that implies len == 0
+		sl, other := a, b
+		if strings.HasPrefix(b.Sort, "Slice_") {
+			sl, other = b, a
+		}
+		if strings.HasPrefix(sl.Sort, "Slice_") && other.S == "0" {
+			fn := "isnil_" + sl.Sort
+			f.declareFun(fn, []string{sl.Sort}, SBool)
+			st.assume("(=> (" + fn + " " + sl.S + ") (= (len_" + sl.Sort + " " + sl.S + ") 0))")
+			t := "(" + fn + " " + sl.S + ")"
+			if op == token.NEQ {
+				t = "(not " + t + ")"
+			}
+			return Term{S: t, Sort: SBool, GoT: resT}
+		}
+	}
 	switch op {
 	case token.EQL:
 		if a.Sort == SF64 {
@@ -540,7 +559,18 @@ func (f *FuncCtx) convert(st *State, v Term, from, to types.Type, pos string) Te
 		}
 		return out
 	case fs == ts && fint && tint && ts == SInt:
-		// mathematical integers: conversion is identity under the no-overflow standing assumption
+		// mathematical integers: widening is the identity; narrowing and sign changes wrap exactly as Go does
+		if namedPath(to) == "reflect.Kind" || namedPath(from) == "reflect.Kind" {
+			return out
+		}
+		if tbits < fbits || (tbits == fbits && tsigned != fsigned) {
+			m := new(big.Int).Lsh(big.NewInt(1), uint(tbits)).String()
+			if tsigned {
+				out.S = "(wrap_s " + v.S + " " + m + ")"
+			} else {
+				out.S = "(wrap_u " + v.S + " " + m + ")"
+			}
+		}
 		return out
 	case fs == ts && fs == SF64:
 		if isFloat32(to) && !isFloat32(from) {
@@ -645,6 +675,9 @@ func (f *FuncCtx) implicit(st *State, v Term, from, to types.Type) Term {
 	if to == nil {
 		return v
 	}
+	if _, isSl := types.Unalias(to).Underlying().(*types.Slice); isSl && v.Sort == SInt {
+		return f.zero(to) // nil slice
+	}
 	if _, isIface := types.Unalias(to).Underlying().(*types.Interface); isIface {
 		if from == nil {
 			from = v.GoT
@@ -709,7 +742,8 @@ func (f *FuncCtx) indexRead(st *State, x *ast.IndexExpr, commaOk bool) (Term, Te
 		m := f.expr(st, x.X)
 		k := f.implicit(st, f.expr(st, x.Index), f.typeOf(x.Index), u.Key())
 		ks, vs := f.sortOfT(u.Key()), f.sortOfT(u.Elem())
-		dom, val, _ := f.w.mapHeaps(ks, vs)
+		_ = ks
+		dom, val, _ := f.w.mapHeapsT(u, f.bv)
 		in := "(and (not (= " + m.S + " 0)) (select (select " + f.heapTerm(st, dom, f.w.heapSorts[dom]) + " " + m.S + ") " + k.S + "))"
 		rd := "(select (select " + f.heapTerm(st, val, f.w.heapSorts[val]) + " " + m.S + ") " + k.S + ")"
 		z := f.zero(u.Elem())
@@ -934,7 +968,8 @@ func (f *FuncCtx) litFields(st *State, x *ast.CompositeLit, s *types.Struct, pre
 
 func (f *FuncCtx) makeMap(st *State, t types.Type, u *types.Map) Term {
 	ks, vs := f.sortOfT(u.Key()), f.sortOfT(u.Elem())
-	dom, _, ln := f.w.mapHeaps(ks, vs)
+	_ = vs
+	dom, _, ln := f.w.mapHeapsT(u, f.bv)
 	r := f.allocRef(st, "newmap", t)
 	f.heapStore(st, dom, f.w.heapSorts[dom], r.S, "((as const (Array "+ks+" Bool)) false)")
 	f.heapStore(st, ln, f.w.heapSorts[ln], r.S, "0")
@@ -943,7 +978,9 @@ func (f *FuncCtx) makeMap(st *State, t types.Type, u *types.Map) Term {
 
 func (f *FuncCtx) mapStore(st *State, m Term, u *types.Map, k, v Term) {
 	ks, vs := f.sortOfT(u.Key()), f.sortOfT(u.Elem())
-	dom, val, ln := f.w.mapHeaps(ks, vs)
+	_ = ks
+	_ = vs
+	dom, val, ln := f.w.mapHeapsT(u, f.bv)
 	f.panicIf(st, "(= "+m.S+" 0)", f.site("nilmap"))
 	d := f.heapTerm(st, dom, f.w.heapSorts[dom])
 	in := "(select (select " + d + " " + m.S + ") " + k.S + ")"
@@ -956,7 +993,9 @@ func (f *FuncCtx) mapStore(st *State, m Term, u *types.Map, k, v Term) {
 
 func (f *FuncCtx) mapDelete(st *State, m Term, u *types.Map, k Term) {
 	ks, vs := f.sortOfT(u.Key()), f.sortOfT(u.Elem())
-	dom, _, ln := f.w.mapHeaps(ks, vs)
+	_ = ks
+	_ = vs
+	dom, _, ln := f.w.mapHeapsT(u, f.bv)
 	d := f.heapTerm(st, dom, f.w.heapSorts[dom])
 	in := "(and (not (= " + m.S + " 0)) (select (select " + d + " " + m.S + ") " + k.S + "))"
 	inc := f.fresh("in", SBool)
